@@ -21,6 +21,30 @@ CHECKS = {
     ),
 }
 
+CHECKS["C01"] = dict(
+    text="Coq theorems over the Gallina model of SOMEIPHeader.build/parse and the datagram loop, for all field values, payloads, suffixes and "
+         "message counts: layout equation against a decoder-independent byte layout (computed on the struct format GENERATED from the live class, "
+         "so a changed format string breaks the proof), round trip with arbitrary suffix, soundness of parse (only encodings decode), "
+         "build fails exactly on out-of-width fields, datagram loop delivers all / exactly the prefix before an undecodable message, termination. "
+         "Correspondence: build/parse/datagram_received vs the extracted model incl. 64 KiB payloads; implementation bytes judged by the extracted spec_layout.",
+    design="6 (C01)", technique="Coq proof (induction over lists, lia over big-endian arithmetic) + generated struct formats + differential correspondence", note=COMMON_NOTE)
+CHECKS["C18"] = dict(
+    text="Coq theorems: SOMEIPHeader.read over an abstract exact reader equals parse up to the incomplete-read error kind, for every stream; "
+         "message sequences agree with the same terminal condition; a stream cut inside a message yields the incomplete-read error. "
+         "Chunk independence itself is asyncio.StreamReader's (trusted) and exercised by the harness over single/pair/all cut sets, 1-byte chunks, random cuts.",
+    design="6 (C18)", technique="Coq proof (read = parse modulo error mapping, induction on fuel) + differential correspondence over chunkings", note=COMMON_NOTE)
+CHECKS["C07"] = dict(
+    text="Coq theorems over the model of _SessionStorage.check_received for every history: the code equals spec_detect_code; it equals the literal "
+         "property spec_detect on histories free of the F12 pattern, and the full statement is refuted by a vm_compute witness (known finding F12, "
+         "session id 0). Correspondence exhaustive over the boundary alphabet (length <= 2 quick / <= 3 thorough) + random; fan-out counted on a real ServiceDiscoveryProtocol.",
+    design="6 (C07)", technique="Coq proof by induction over the history with an alist invariant + refutation witness + exhaustive differential correspondence",
+    note=COMMON_NOTE + " Known finding F12 is excused only by the extracted classifier f12_at (the same term that is the theorem's hypothesis).")
+CHECKS["C16"] = dict(
+    text="Coq theorem: the model of SimpleService.message_received equals the property's reply table (literal type/code numbers) for every message, "
+         "channel and handler outcome; corollaries: correlation of ids, fire-and-forget never gets RESPONSE, multicast never answered, handler called iff all checks pass. "
+         "Correspondence exhaustive over the decision domain (2x2x2x10x11x3x2) + random ids/payloads through the real SimpleService with a recording transport.",
+    design="6 (C16)", technique="Coq proof by case analysis of the decision chain + exhaustive differential correspondence", note=COMMON_NOTE)
+
 NOT_YET = {}
 
 
